@@ -34,12 +34,12 @@ use crate::builders::{
   BusinessKnowledgeModelEvaluator, DecisionEvaluator, DecisionServiceEvaluator, InputDataContextEvaluator, InputDataEvaluator, ItemDefinitionContextEvaluator,
   ItemDefinitionEvaluator, ItemDefinitionTypeEvaluator,
 };
-use crate::errors::{err_read_lock_failed, err_write_lock_failed};
+use crate::errors::{err_cyclic_dependency, err_read_lock_failed, err_write_lock_failed};
 use dmntk_common::Result;
 use dmntk_feel::context::FeelContext;
 use dmntk_feel::values::Value;
 use dmntk_feel::{value_null, Name};
-use dmntk_model::model::Definitions;
+use dmntk_model::model::{Definitions, DmnElement, Expression, ItemDefinition, NamedElement};
 use std::collections::HashMap;
 use std::sync::{Arc, RwLock, RwLockReadGuard};
 
@@ -74,9 +74,93 @@ pub struct ModelEvaluator {
   invocable_by_name: RwLock<HashMap<String, InvocableType>>,
 }
 
+/// Checks that nothing in the model depends on itself. Builders and evaluators follow required decisions,
+/// required knowledge (business knowledge models, decision services with their output and encapsulated
+/// decisions) and type references of item definitions recursively, so a cycle would never end.
+fn check_cyclic_dependencies(definitions: &Definitions) -> Result<()> {
+  let mut edges: HashMap<String, Vec<String>> = HashMap::new();
+  for decision in definitions.decisions() {
+    if let Some(id) = decision.id() {
+      let targets = edges.entry(id.clone()).or_default();
+      for information_requirement in decision.information_requirements() {
+        if let Some(href) = information_requirement.required_decision() {
+          targets.push(href.into());
+        }
+      }
+      for knowledge_requirement in decision.knowledge_requirements() {
+        if let Some(href) = knowledge_requirement.required_knowledge() {
+          targets.push(href.into());
+        }
+      }
+    }
+  }
+  for business_knowledge_model in definitions.business_knowledge_models() {
+    if let Some(id) = business_knowledge_model.id() {
+      let targets = edges.entry(id.clone()).or_default();
+      for knowledge_requirement in business_knowledge_model.knowledge_requirements() {
+        if let Some(href) = knowledge_requirement.required_knowledge() {
+          targets.push(href.into());
+        }
+      }
+    }
+  }
+  for decision_service in definitions.decision_services() {
+    if let Some(id) = decision_service.id() {
+      let targets = edges.entry(id.clone()).or_default();
+      for href in decision_service.output_decisions().iter().chain(decision_service.encapsulated_decisions()) {
+        targets.push(href.into());
+      }
+    }
+  }
+  fn collect_type_references(item_definition: &ItemDefinition, targets: &mut Vec<String>) {
+    if let Some(type_ref) = item_definition.type_ref() {
+      targets.push(format!("type {}", type_ref));
+    }
+    for item_component in item_definition.item_components() {
+      collect_type_references(item_component, targets);
+    }
+  }
+  for item_definition in definitions.item_definitions() {
+    let mut targets = vec![];
+    collect_type_references(item_definition, &mut targets);
+    edges.entry(format!("type {}", item_definition.name())).or_default().append(&mut targets);
+  }
+  // depth-first search with an explicit stack; a node is `Some(false)` while it is on the current path and `Some(true)` when done
+  let mut visited: HashMap<&str, bool> = HashMap::new();
+  for start in edges.keys() {
+    if visited.contains_key(start.as_str()) {
+      continue;
+    }
+    let mut stack: Vec<(&str, usize)> = vec![(start.as_str(), 0)];
+    visited.insert(start.as_str(), false);
+    while let Some((node, next)) = stack.pop() {
+      match edges.get(node).and_then(|targets| targets.get(next)) {
+        Some(target) => {
+          stack.push((node, next + 1));
+          match visited.get(target.as_str()) {
+            Some(false) => return Err(err_cyclic_dependency(target)),
+            Some(true) => {}
+            None => {
+              if edges.contains_key(target.as_str()) {
+                visited.insert(target.as_str(), false);
+                stack.push((target.as_str(), 0));
+              }
+            }
+          }
+        }
+        None => {
+          visited.insert(node, true);
+        }
+      }
+    }
+  }
+  Ok(())
+}
+
 impl ModelEvaluator {
   /// Creates an instance of [ModelEvaluator].
   pub fn new(definitions: &Definitions) -> Result<Arc<Self>> {
+    check_cyclic_dependencies(definitions)?;
     let model_evaluator = Arc::new(ModelEvaluator::default());
     model_evaluator
       .input_data_evaluator
